@@ -36,6 +36,7 @@ Fields == { <<"Evt", "met", "Int">>, <<"Evt", "n", "Int">>, <<"Evt", "jets", "Se
 (* ------------------------------------------------------------------ *)
 (* production families                                                *)
 Binders == CASE Fam \in {"fuse1", "chain1", "md1", "chainx"} -> {"x"}
+             [] Fam = "helper" -> {"a", "t"}
              [] OTHER -> {"x", "y"}
 
 Enabled(prod) ==
@@ -65,7 +66,8 @@ Enabled(prod) ==
       [] Fam = "md1"   -> prod \in {"Select", "Where", "Count", "Cmp", "MD"}
       [] Fam = "md"    -> prod \in {"Select", "Where", "SelectMany", "Count", "Cmp", "Add", "MD", "First"}
       [] Fam = "comp"  -> prod \in {"Comp", "Select", "Count", "Sum", "Cmp", "Add", "First"}
-      [] Fam = "all"   -> prod \notin {"OtherMeth", "KwOp", "AggOdd", "MD", "OutIdx", "AbsentKey", "Comp"}
+      [] Fam = "helper" -> prod \in {"Select", "Where", "SelectMany", "Helper", "Add", "Cmp", "Count", "First"}
+      [] Fam = "all"   -> prod \notin {"OtherMeth", "KwOp", "AggOdd", "MD", "OutIdx", "AbsentKey", "Comp", "Helper"}
       [] OTHER -> FALSE
 
 (* ------------------------------------------------------------------ *)
@@ -282,6 +284,18 @@ NonLeaf(h) ==
           {CallK(Name("myfn"), <<Hole("Int", sp[1], ns, ss)>>, <<"y">>, <<Hole("Int", sp[2], ns, ss)>>) :
               sp \in Split2(r)}
        ELSE {}) \cup
+      (* ---- calls of captured one-line helpers (C05; table in Sem.HelperLam) ---- *)
+      (IF s = "Int" /\ Enabled("Helper") THEN
+          {Fn(hn, <<Hole("Int", r, ns, ss)>>) : hn \in {"h_id", "h_inc", "h_lam", "h_sub"}} \cup
+          {Fn(hn, <<Hole("Jet", r, ns, ss)>>) : hn \in {"h_nest", "h_two", "h_cap"}} \cup
+          {Fn("h_sub", <<Hole("Int", sp[1], ns, ss), Hole("Int", sp[2], ns, ss)>>) : sp \in Split2(r)} \cup
+          {Fn("h_nest2", <<Hole("Jet", sp[1], ns, ss), Hole("Int", sp[2], ns, ss)>>) : sp \in Split2(r)} \cup
+          {CallK(Name("h_sub"), <<>>, <<"b", "a">>, <<Hole("Int", sp[1], ns, ss), Hole("Int", sp[2], ns, ss)>>) :
+              sp \in Split2(r)} \cup
+          {CallK(Name("h_kw"), <<Hole("Int", sp[1], ns, ss)>>, <<"y">>, <<Hole("Int", sp[2], ns, ss)>>) :
+              sp \in Split2(r)} \cup
+          {CallK(Name("h_kw"), <<>>, <<"x">>, <<Hole("Int", r, ns, ss)>>)}
+       ELSE {}) \cup
       (* ---- booleans ---- *)
       (IF s = "Bool" /\ Enabled("Cmp") THEN
           {Cmp(">", Hole("Int", sp[1], ns, ss), Hole("Int", sp[2], ns, ss)) : sp \in Split2(r)}
@@ -316,6 +330,7 @@ Fill(t) ==
 
 RootSorts == CASE Fam \in {"idx", "chain", "chain1", "chainx"} -> {"SeqInt"}
                [] Fam \in {"agg"} -> {"SeqInt", "Int"}
+               [] Fam = "helper" -> {"SeqInt", "SeqJet"}
                [] Fam \in {"meth", "md", "md1"} -> {"SeqInt", "SeqJet", "SeqEvt", "SeqTrk", "Int"}
                [] OTHER -> {"SeqInt", "SeqJet", "Int"}
 Roots == {Hole(s, Budget, <<>>, <<>>) : s \in RootSorts}
